@@ -278,8 +278,8 @@ func c08Inspect(r *core.Run, k *c08Known, rec *inproc.Record, sig string, tail [
 }
 
 func runC08(r *core.Run) {
-	r.Rule("world histories (2 real wallets, 1-2 real mints, in-process transport) over every wallet operation path (mint, send with and without swap and fees, receive on the same mint and untrusted with swap-to-trusted, P2PK incl. SIG_ALL and HTLC lock + receive, melt with NUT-08 blank outputs under each Lightning outcome, melt-quote checks, reclaim, remove-spent, mint-to-mint swap, keyset rotation, wallet restart, restore from mnemonic), with mints that return DLEQ proofs and one variant whose responses are rewritten to carry none; every byte of every request body is inspected: every 64-hex window is looked up in the set of blinding factors known from the wallet store proxy, returned proofs and an independent NUT-13 derivation, no JSON key r may occur, a deterministic output secret may only occur as inputs[].secret of swap/melt; non-trivial = distinct (history, request#) bodies inspected that contained at least one 64-hex window")
-	r.Assume("tokens returned to the wallet's caller are exempt (not requests); the mint's own (e, s) echoed on an input is recorded as an observation, not a verdict")
+	r.Rule("world histories (2 real wallets, 1-2 real mints, in-process transport) over every wallet operation path (mint, send with and without swap and fees, receive on the same mint and untrusted with swap-to-trusted, P2PK incl. SIG_ALL and HTLC lock + receive, melt with NUT-08 blank outputs under each Lightning outcome, melt-quote checks, reclaim, remove-spent, mint-to-mint swap, keyset rotation, wallet restart, restore from mnemonic), with mints that return DLEQ proofs and one variant whose responses are rewritten to carry none; every byte of every request body is inspected: every 64-hex window is looked up in the set of blinding factors known from the wallet store proxy, returned proofs and an independent NUT-13 derivation, no JSON key r may occur, a deterministic output secret may only occur as inputs[].secret of swap/melt; beyond r itself: the x coordinate of r*G of every known blinding factor, and every DLEQ e / s and C_ the mints have handed out so far, are looked up in the same windows (any of them tells the mint which signature a proof comes from); non-trivial = distinct (history, request#) bodies inspected that contained at least one 64-hex window")
+	r.Assume("tokens returned to the wallet's caller are exempt (not requests); the unchanged wallet never sends a dleq object on an input (measured: 0 in every run), so an (e, s) pair the mint handed out that comes back in a request is a verdict")
 	nh, nops := pick(r, 6, 48), pick(r, 40, 120)
 	var endpointsSeen sync.Map
 	var totalRs int64
